@@ -312,8 +312,9 @@ def run(ctx):
 
     _c19.r19_2_callers(ctx)
     _c19.r19_5_signature_types(ctx)  # the parameter types of the called method are the ones its signature names (shared with C19)
-    from rules import c13 as _c13
+    from rules import c13 as _c13, c12 as _c12
 
+    _c12.r12_2b_named_ints(ctx)  # the type_enum of a transaction argument names the transaction type it says (shared with C12)
     _c13.r13_1_bytes_forms(ctx)  # the selector placed in ApplicationArgs[0] is the hash of the signature text itself (shared with C13)
     _c19.r19_1_relation(ctx)
     return (
